@@ -119,6 +119,13 @@ def run(chk):
                     if r[0] == "err" and not why:
                         chk.violation("reject:rejects-valid", "a valid explicit document is rejected (%s)" % r[1], rep)
                         continue
+                if r[0] == "ok":
+                    # the model (proved to accept only what resolves to a valid graph) rejects: is the returned graph valid?
+                    vb = validity.check_graph(drv, r[1])
+                    if vb:
+                        chk.violation("reject:accepts-invalid:" + vb.split(" ")[0],
+                                      "a rule-breaking document is accepted; the returned graph is invalid: " + vb, rep)
+                        continue
                 chk.unproven("reject:correspondence", "implementation and proved model disagree on acceptance",
                              dict(rep, model=mr[0] if mr[0] == "ok" else mr))
                 continue
